@@ -65,6 +65,11 @@ class Scratch:
         """Append cfg-guarded child modules to the scratch copy (never to /repo)."""
         missing = []
         hdir = os.path.join(VERIF, "harness")
+        self.gen = os.path.join(self.dir, "gen")
+        os.makedirs(self.gen, exist_ok=True)
+        # placeholder so that harness modules compile even when a check does not need the table
+        with open(os.path.join(self.gen, "fraction_table.rs"), "w") as f:
+            f.write("vec![]")
         files = set(KANI_INJECT) | set(NATIVE_INJECT)
         for rel in sorted(files):
             path = os.path.join(self.repo, rel)
